@@ -385,6 +385,25 @@ class CallMixin:
         return self.method_special(recv, name, args, kwargs, node, fr)
 
     def method_special(self, recv, name, args, kwargs, node, fr):
+        if isinstance(recv, VObj) and recv.cls == "<charclass>" and name == "search" and 1 <= len(args) <= 2 and isinstance(args[0], VStr):
+            # pattern.search(s, pos): None, or a match whose start() is the least index >= pos with s[i] in the class
+            codes = self.ghost[("charclass", recv.ref)]
+            s_ = args[0]
+            n = s_.length()
+            st = self.as_int(args[1]) if len(args) == 2 else z3.IntVal(0)
+            st = z3.If(st < 0, z3.IntVal(0), z3.If(st > n, n, st))
+            member = lambda c: z3.Or([c == x for x in sorted(codes)])  # noqa: E731
+            found, r, k = fresh("found", "bool"), fresh("mstart"), fresh("k")
+            self.assume_axiom(z3.Implies(found, z3.And(st <= r, r < n, member(s_.char(r)), z3.ForAll([k], z3.Implies(z3.And(st <= k, k < r), z3.Not(member(s_.char(k))))))))
+            self.assume_axiom(z3.Implies(z3.Not(found), z3.ForAll([k], z3.Implies(z3.And(st <= k, k < n), z3.Not(member(s_.char(k)))))))
+            m = VObj(self.new_ref("match"), "<match>")
+            self.ghost[("match", m.ref)] = r
+            return VOpt(z3.Not(found), m)
+        if isinstance(recv, VOpt) and isinstance(recv.some, VObj) and recv.some.cls == "<match>":
+            self.safe_or_raise(z3.Not(recv.isnone), "AttributeError", node, fr, "call")
+            recv = recv.some
+        if isinstance(recv, VObj) and recv.cls == "<match>" and name == "start" and not args:
+            return VInt(self.ghost[("match", recv.ref)])
         if isinstance(recv, VOpt) and isinstance(recv.some, VObj):
             self.safe_or_raise(z3.Not(recv.isnone), "AttributeError", node, fr, "call")
             recv = recv.some
@@ -633,6 +652,17 @@ class CallMixin:
         c = self.registry.get(qual)
         if c is None:
             raise Unsupported(f"call to {qual} which has no contract")
+        cc = (c.ghost or {}).get("returns_charclass")
+        if cc:
+            # a function that returns a compiled one-character class built from a module-level set literal: the set is read
+            # from the real source; that the compiled pattern matches exactly that set is a separate ENUM obligation
+            # (complete enumeration over all code points, vf/charclass.py)
+            mi, fn, canon = S.resolve_function(qual)
+            codes = S.set_literal_codes(mi, cc)
+            self.assumption_log.add(f"{qual}() returns a pattern matching exactly one character of {cc} (checked by complete enumeration: ENUM obligation)")
+            obj = VObj(self.new_ref("charclass"), "<charclass>")
+            self.ghost[("charclass", obj.ref)] = codes
+            return obj
         mi, fn, canon = S.resolve_function(qual)
         sub = self.make_frame(canon, mi, fn, c)
         # bind arguments
